@@ -319,6 +319,11 @@ def lex_continue(
     ):
         return True
 
+    # A real number may have no digits before the decimal point
+    # (e.g. "+.5"), so a sign that starts a lexeme goes on into a ".".
+    if lexeme == char and char in g.numeric_start_chars and next_char == ".":
+        return True
+
     # Since Non Decimal Numerics can have reserved characters in them.
     if g.nondecimal_pre_re.fullmatch(lexeme + next_char) is not None:
         return True
